@@ -1,6 +1,6 @@
 SPECIFICATION Spec
 CONSTANTS
-  Families = {"A1", "B", "C1", "E"}
+  Families = {"A1", "B", "C0", "E", "K"}
 INVARIANT CacheInDatainfo
 PROPERTY DriverOnlyIfAllowed
 PROPERTY ErrorLeavesNoTrace
